@@ -20,7 +20,7 @@ func Choice(parsers ...parsley.Parser) parser.Func {
 
 	return parser.Func(func(ctx *parsley.Context, leftRecCtx data.IntMap, pos parsley.Pos) (parsley.Node, data.IntSet, parsley.Error) {
 		cp := data.EmptyIntSet
-		var err parsley.Error
+		var err, startErr parsley.Error
 		for _, p := range parsers {
 			ctx.RegisterCall()
 			node, cp2, err2 := p.Parse(ctx, leftRecCtx, pos)
@@ -29,12 +29,24 @@ func Choice(parsers ...parsley.Parser) parser.Func {
 			if err2 != nil && (err == nil || err2.Pos() >= err.Pos()) {
 				if err2.Pos() > pos || !parsley.IsNotFoundError(err2) {
 					err = err2
+				} else if startErr == nil {
+					startErr = err2
 				}
 			}
 			if node != nil {
+				if err == nil {
+					ctx.SetError(startErr)
+				}
 				ctx.SetError(err)
 				return node, cp, nil
 			}
+		}
+
+		// The not found errors at our own position are not returned (so Name()
+		// can replace them), but if nothing else failed then they are the
+		// furthest failure, so the context has to know about them.
+		if err == nil {
+			ctx.SetError(startErr)
 		}
 
 		return nil, cp, err
